@@ -9,6 +9,7 @@ import (
 	"os"
 	"sort"
 	"strings"
+	"sync"
 
 	"golang.org/x/tools/go/packages"
 	"golang.org/x/tools/go/ssa"
@@ -29,6 +30,10 @@ type Program struct {
 	SSAPkgs  map[string]*ssa.Package // repo packages by path
 	Funcs    []*ssa.Function         // every function with a body declared in the repo (incl. anonymous), sorted
 	byObject map[*types.Func]*ssa.Function
+
+	idxOnce     sync.Once
+	callSites   map[*ssa.Function][]*ssa.CallCommon // nil entry: the function is used as a value
+	fieldStores map[string][]ssa.Value
 }
 
 // Load type-checks the repository at dir and builds SSA for its packages.
@@ -219,4 +224,56 @@ func (p *Program) FileOf(pos token.Pos) (*packages.Package, *ast.File) {
 		}
 	}
 	return nil, nil
+}
+
+func (p *Program) buildIndex() {
+	p.idxOnce.Do(func() {
+		p.callSites = map[*ssa.Function][]*ssa.CallCommon{}
+		p.fieldStores = map[string][]ssa.Value{}
+		for _, fn := range p.Funcs {
+			for _, b := range fn.Blocks {
+				for _, ins := range b.Instrs {
+					if cc := CallCommon(ins); cc != nil && !cc.IsInvoke() {
+						if f := cc.StaticCallee(); f != nil {
+							p.callSites[f] = append(p.callSites[f], cc)
+						}
+					}
+					if st, ok := ins.(*ssa.Store); ok {
+						if n, f, _, ok := FieldRef(st.Addr); ok && n != nil {
+							k := n.String() + "." + f
+							p.fieldStores[k] = append(p.fieldStores[k], st.Val)
+						}
+					}
+					// function used as a value (not as the callee of this instruction)
+					var ops []*ssa.Value
+					for _, op := range ins.Operands(ops) {
+						if op == nil || *op == nil {
+							continue
+						}
+						f, ok := (*op).(*ssa.Function)
+						if !ok {
+							continue
+						}
+						if cc := CallCommon(ins); cc != nil && cc.Value == *op {
+							continue
+						}
+						p.callSites[f] = append(p.callSites[f], nil)
+					}
+				}
+			}
+		}
+	})
+}
+
+// CallSitesOf returns the static call sites (call, go, defer) of fn in the repo; a nil entry
+// means fn is also used as a function value.
+func (p *Program) CallSitesOf(fn *ssa.Function) []*ssa.CallCommon {
+	p.buildIndex()
+	return p.callSites[fn]
+}
+
+// FieldStores returns every value stored into field f of struct type n anywhere in the repo.
+func (p *Program) FieldStores(n *types.Named, f string) []ssa.Value {
+	p.buildIndex()
+	return p.fieldStores[n.String()+"."+f]
 }
